@@ -2,6 +2,7 @@
 From Coq Require Import ZArith List Bool String.
 From KV Require Import Base.Sx Base.Str Gen.Generated Model.Flags Proofs.FlagsP Model.FlagsV4 Proofs.FlagsV4P.
 From KV Require Model.Select Proofs.SelectP Props.C02.
+From KV Require Model.FlagsSel Proofs.FlagsSelP.
 Import ListNotations.
 Open Scope Z_scope.
 
@@ -178,3 +179,172 @@ Theorem C16_history_only_moves_boolean_flags : forall h h' s,
    o_flag (v4_observe flag_names h s) = o_flag (v4_observe flag_names h' s)).
 Proof. exact history_only_moves_boolean_flags. Qed.
 Print Assumptions C16_history_only_moves_boolean_flags.
+
+(* ======== selection plumbing: from select(flags=..., weights=...) to the masks of a data set and of the members of
+   a concatenated data set (Model/FlagsSel.v) ======== *)
+
+(* What the translator read from dataset.py (DataSet.__init__, select, _set_keep), concatdata.py
+   (ConcatenatedDataSet._set_keep, flags / weights / vis, end of __init__), the _flags_keep / _weights_keep properties
+   of the three formats and the HDF5 flag transform, at this run. *)
+Theorem C16_selection_plumbing_sources :
+  ds_set_keep_guards = [("weights", "is_not_none"); ("flags", "is_not_none")]%string
+  /\ ds_init_keeps = [("_weights_keep", "all"); ("_flags_keep", "all")]%string
+  /\ ds_select_keeps = [("weights", "_weights_keep"); ("flags", "_flags_keep")]%string
+  /\ ds_select_final_set_keep = ["_time_keep"; "_freq_keep"; "_corrprod_keep"; "_weights_keep"; "_flags_keep"]%string
+  /\ concat_super_set_keep_args = ["time_keep"; "freq_keep"; "corrprod_keep"; "weights_keep"; "flags_keep"]%string
+  /\ concat_member_keep_args = [("weights_keep", "self._weights_keep"); ("flags_keep", "self._flags_keep")]%string
+  /\ set_keep_overridden_by = ["VisibilityDataV4"]%string
+  /\ concat_data_from_members = ["vis"; "weights"; "flags"]%string
+  /\ concat_init_ends_with_select = true
+  /\ flag_setter_flip = [("v4", (true, true)); ("v3", (true, true)); ("v2", (false, false))]%string
+  /\ ds_weight_names = [("v3", ["precision"]); ("v2", ["precision"])]%string
+  /\ h5_flag_transform = [("v3", "bool(and(mask,stored))"); ("v2", "bool(and(mask,stored))")]%string.
+Proof. exact KV.Proofs.FlagsSelP.plumbing_sources. Qed.
+Print Assumptions C16_selection_plumbing_sources.
+
+(* The setter of each format (flip as regenerated) computes exactly the bits of the selected documented names in
+   the bit order of the format. *)
+Theorem C16_setter_of_each_format : forall f a,
+  KV.Model.FlagsSel.mk_mask flag_names f a
+  = match f with
+    | KV.Model.FlagsSel.FV2 => spec_mask_v2 (spec_wanted a)
+    | _ => spec_mask_v34 (spec_wanted a)
+    end.
+Proof. exact KV.Proofs.FlagsSelP.mk_mask_spec. Qed.
+Print Assumptions C16_setter_of_each_format.
+
+(* The getter (which select() reads back before calling _set_keep) returns exactly the documented names whose bit is
+   set, and getter followed by setter is the identity on bytes (256 x 3 sweep lifted by forallb_forall). *)
+Theorem C16_getter_setter_roundtrip : forall f m, 0 <= m < 256 ->
+  KV.Model.FlagsSel.mk_mask flag_names f (SelList (KV.Model.FlagsSel.keep_names flag_names f m)) = m
+  /\ forall i, (i < 8)%nat ->
+       mem_string (nth i doc_names ""%string) (KV.Model.FlagsSel.keep_names flag_names f m)
+       = Z.testbit m (match f with KV.Model.FlagsSel.FV2 => 7 - Z.of_nat i | _ => Z.of_nat i end).
+Proof. exact KV.Proofs.FlagsSelP.getter_setter_roundtrip. Qed.
+Print Assumptions C16_getter_setter_roundtrip.
+
+(* ONE data set of any format, the faithful model of select() (self._selection, setter, getter, guarded setter):
+   after ANY history of calls the mask is the one of the last flags= argument ('all' by default) in the bit order of
+   the format, the weight selection the one of the last weights= argument. *)
+Theorem C16_dataset_mask_after_history : forall f (h : list KV.Model.FlagsSel.kwpair),
+  let d := KV.Model.FlagsSel.pds_run KV.Model.FlagsSel.cur_plumbing flag_names (KV.Model.FlagsSel.pds_init flag_names f) h in
+  KV.Model.FlagsSel.p_fmt d = f
+  /\ KV.Model.FlagsSel.p_mask d = KV.Model.FlagsSel.spec_fmt_mask f (last_sel (map fst h) (SelStr "all"))
+  /\ KV.Model.FlagsSel.p_wts d = KV.Model.FlagsSel.mk_wts f (last_sel (map snd h) (SelStr "all"))
+  /\ 0 <= KV.Model.FlagsSel.p_mask d < 256.
+Proof. exact KV.Proofs.FlagsSelP.pds_history. Qed.
+Print Assumptions C16_dataset_mask_after_history.
+
+(* ... and for v4 it is the mask the per-sample theorems above (the C16_v4_ ones) are stated with. *)
+Theorem C16_dataset_v4_refines_history_mask : forall h : list KV.Model.FlagsSel.kwpair,
+  KV.Model.FlagsSel.p_mask (KV.Model.FlagsSel.pds_run KV.Model.FlagsSel.cur_plumbing flag_names
+                              (KV.Model.FlagsSel.pds_init flag_names KV.Model.FlagsSel.FV4) h)
+  = hist_mask flag_names (map fst h).
+Proof. exact KV.Proofs.FlagsSelP.pds_v4_is_hist_mask. Qed.
+Print Assumptions C16_dataset_v4_refines_history_mask.
+
+(* A concatenated data set built from members in ANY state (whatever they had selected on their own), after ANY
+   history of select() calls on the whole and directly on members whose last call went to the whole: the formats of
+   the members are what they were, and EVERY member's mask is the mask -- in the member's own bit order -- of the
+   last flags= argument given to the whole ('all' if none; an empty selection gives 0), its weight selection the
+   one of the last weights= argument. *)
+Theorem C16_concat_members_follow_the_whole : forall (members : list KV.Model.FlagsSel.pds) (h : list KV.Model.FlagsSel.step),
+  KV.Model.FlagsSel.ends_whole h = true ->
+  let c := KV.Model.FlagsSel.cds_run KV.Model.FlagsSel.cur_plumbing flag_names
+             (KV.Model.FlagsSel.cds_open KV.Model.FlagsSel.cur_plumbing flag_names members) h in
+  map KV.Model.FlagsSel.p_fmt (KV.Model.FlagsSel.c_members c) = map KV.Model.FlagsSel.p_fmt members
+  /\ forall d, In d (KV.Model.FlagsSel.c_members c) ->
+       KV.Model.FlagsSel.p_mask d
+       = KV.Model.FlagsSel.spec_fmt_mask (KV.Model.FlagsSel.p_fmt d) (KV.Model.FlagsSel.last_whole_f h (SelStr "all"))
+       /\ KV.Model.FlagsSel.p_wts d
+          = KV.Model.FlagsSel.mk_wts (KV.Model.FlagsSel.p_fmt d) (KV.Model.FlagsSel.last_whole_w h (SelStr "all"))
+       /\ 0 <= KV.Model.FlagsSel.p_mask d < 256.
+Proof. exact KV.Proofs.FlagsSelP.concat_history. Qed.
+Print Assumptions C16_concat_members_follow_the_whole.
+
+(* Just concatenated: all flags (and the weights) are selected, whatever the members had selected before. *)
+Theorem C16_concat_default_is_all : forall members d,
+  In d (KV.Model.FlagsSel.c_members (KV.Model.FlagsSel.cds_open KV.Model.FlagsSel.cur_plumbing flag_names members)) ->
+  KV.Model.FlagsSel.p_mask d = 255
+  /\ (KV.Model.FlagsSel.p_fmt d <> KV.Model.FlagsSel.FV4 -> KV.Model.FlagsSel.p_wts d = [0%nat]).
+Proof. exact KV.Proofs.FlagsSelP.concat_open_resets. Qed.
+Print Assumptions C16_concat_default_is_all.
+
+(* The boolean flag every sample of every member shows through the glued flags indexer: some bit of its raw byte is
+   among the names currently selected on the whole. *)
+Theorem C16_concat_flags_after_history : forall members h d raw,
+  KV.Model.FlagsSel.ends_whole h = true -> 0 <= raw < 256 ->
+  In d (KV.Model.FlagsSel.c_members (KV.Model.FlagsSel.cds_run KV.Model.FlagsSel.cur_plumbing flag_names
+          (KV.Model.FlagsSel.cds_open KV.Model.FlagsSel.cur_plumbing flag_names members) h)) ->
+  KV.Model.FlagsSel.member_flag d raw
+  = existsb (fun i => Z.testbit raw i
+                      && Z.testbit (KV.Model.FlagsSel.spec_fmt_mask (KV.Model.FlagsSel.p_fmt d)
+                                      (KV.Model.FlagsSel.last_whole_f h (SelStr "all"))) i)
+            [0;1;2;3;4;5;6;7].
+Proof. exact KV.Proofs.FlagsSelP.concat_flags_after_history. Qed.
+Print Assumptions C16_concat_flags_after_history.
+
+(* A v4 member (possibly opened with applycal, possibly with lost chunks): its samples show the DERIVED raw byte
+   (stored | data_lost | postproc, cf. C16_v4_raw_flags_regardless_of_selection) against the names selected on the whole. *)
+Theorem C16_concat_v4_member_sample : forall members h d (s : v4s),
+  KV.Model.FlagsSel.ends_whole h = true -> KV.Model.FlagsSel.p_fmt d = KV.Model.FlagsSel.FV4 -> 0 <= s_stored s < 256 ->
+  In d (KV.Model.FlagsSel.c_members (KV.Model.FlagsSel.cds_run KV.Model.FlagsSel.cur_plumbing flag_names
+          (KV.Model.FlagsSel.cds_open KV.Model.FlagsSel.cur_plumbing flag_names members) h)) ->
+  KV.Model.FlagsSel.member_flag d (v4_raw s)
+  = existsb (fun i => Z.testbit (spec_v4_raw s) i
+                      && Z.testbit (spec_mask_v34 (spec_wanted (KV.Model.FlagsSel.last_whole_f h (SelStr "all")))) i)
+            [0;1;2;3;4;5;6;7].
+Proof. exact KV.Proofs.FlagsSelP.concat_v4_member_sample. Qed.
+Print Assumptions C16_concat_v4_member_sample.
+
+(* HDF5 members: the weights are the stored ones iff a documented weight name is selected on the whole, else 1. *)
+Theorem C16_concat_weights_after_history : forall members h d w,
+  KV.Model.FlagsSel.ends_whole h = true -> KV.Model.FlagsSel.p_fmt d <> KV.Model.FlagsSel.FV4 ->
+  In d (KV.Model.FlagsSel.c_members (KV.Model.FlagsSel.cds_run KV.Model.FlagsSel.cur_plumbing flag_names
+          (KV.Model.FlagsSel.cds_open KV.Model.FlagsSel.cur_plumbing flag_names members) h)) ->
+  KV.Model.FlagsSel.member_weight d w
+  = if KV.Model.FlagsSel.spec_weights_on (KV.Model.FlagsSel.last_whole_w h (SelStr "all")) then w else (1, 0).
+Proof. exact KV.Proofs.FlagsSelP.concat_weights_after_history. Qed.
+Print Assumptions C16_concat_weights_after_history.
+
+(* A call made directly on one member moves that member only. *)
+Theorem C16_concat_member_call_is_local : forall c n kf kw i, i <> n ->
+  nth_error (KV.Model.FlagsSel.c_members
+               (KV.Model.FlagsSel.cds_step KV.Model.FlagsSel.cur_plumbing flag_names c (KV.Model.FlagsSel.Member n kf kw))) i
+  = nth_error (KV.Model.FlagsSel.c_members c) i.
+Proof. exact KV.Proofs.FlagsSelP.member_step_local. Qed.
+Print Assumptions C16_concat_member_call_is_local.
+
+(* Whether DataSet._set_keep tests `is not None` or the truth value makes no difference for a data set that is
+   selected directly (select() has been through the setter already and hands on what the getter returns) ... *)
+Theorem C16_guard_invisible_on_one_dataset : forall pl f (h : list KV.Model.FlagsSel.kwpair),
+  KV.Proofs.FlagsSelP.good_guard (KV.Model.FlagsSel.g_flags pl) ->
+  KV.Proofs.FlagsSelP.good_guard (KV.Model.FlagsSel.g_weights pl) ->
+  let d := KV.Model.FlagsSel.pds_run pl flag_names (KV.Model.FlagsSel.pds_init flag_names f) h in
+  let d' := KV.Model.FlagsSel.pds_run KV.Model.FlagsSel.cur_plumbing flag_names (KV.Model.FlagsSel.pds_init flag_names f) h in
+  KV.Model.FlagsSel.p_mask d = KV.Model.FlagsSel.p_mask d' /\ KV.Model.FlagsSel.p_wts d = KV.Model.FlagsSel.p_wts d'.
+Proof. exact KV.Proofs.FlagsSelP.pds_guard_irrelevant. Qed.
+Print Assumptions C16_guard_invisible_on_one_dataset.
+
+(* ... but it is what carries an EMPTY selection to the members of a concatenated data set: the same steps with a
+   truthiness test leave the members on the previous selection. *)
+Theorem C16_truthy_guard_would_break_concat_example :
+  let ms := [KV.Model.FlagsSel.pds_init flag_names KV.Model.FlagsSel.FV4;
+             KV.Model.FlagsSel.pds_init flag_names KV.Model.FlagsSel.FV3;
+             KV.Model.FlagsSel.pds_init flag_names KV.Model.FlagsSel.FV2] in
+  let h := [KV.Model.FlagsSel.Whole (Some (SelStr "cam")) None;
+            KV.Model.FlagsSel.Whole (Some (SelList [])) (Some (SelStr ""))] in
+  map KV.Model.FlagsSel.p_mask (KV.Model.FlagsSel.c_members
+        (KV.Model.FlagsSel.cds_run KV.Proofs.FlagsSelP.truthy_plumbing flag_names
+           (KV.Model.FlagsSel.cds_open KV.Proofs.FlagsSelP.truthy_plumbing flag_names ms) h)) = [4; 4; 32]
+  /\ map KV.Model.FlagsSel.p_wts (KV.Model.FlagsSel.c_members
+        (KV.Model.FlagsSel.cds_run KV.Proofs.FlagsSelP.truthy_plumbing flag_names
+           (KV.Model.FlagsSel.cds_open KV.Proofs.FlagsSelP.truthy_plumbing flag_names ms) h)) = [[]; [0%nat]; [0%nat]]
+  /\ map KV.Model.FlagsSel.p_mask (KV.Model.FlagsSel.c_members
+        (KV.Model.FlagsSel.cds_run KV.Model.FlagsSel.cur_plumbing flag_names
+           (KV.Model.FlagsSel.cds_open KV.Model.FlagsSel.cur_plumbing flag_names ms) h)) = [0; 0; 0]
+  /\ map KV.Model.FlagsSel.p_wts (KV.Model.FlagsSel.c_members
+        (KV.Model.FlagsSel.cds_run KV.Model.FlagsSel.cur_plumbing flag_names
+           (KV.Model.FlagsSel.cds_open KV.Model.FlagsSel.cur_plumbing flag_names ms) h)) = [[]; []; []].
+Proof. exact KV.Proofs.FlagsSelP.truthy_guard_breaks_concat. Qed.
+Print Assumptions C16_truthy_guard_would_break_concat_example.
